@@ -63,6 +63,8 @@ pub struct Q1Snap {
     pub streams: Vec<(u32, u32)>,
     pub queues: Vec<Option<(u8, usize, usize)>>,
     pub seq: u64,
+    /// sync callers (op id, object, queue state tag) asleep on a condition variable although their queue can be claimed
+    pub asleep_syncs: Vec<(u32, usize, u8)>,
 }
 
 thread_local! {
@@ -179,6 +181,25 @@ fn take_snapshot(pi: usize, code: &'static str) -> Q1Snap {
     }
     for st in world.streams.iter() {
         snap.streams.push((st.drops, st.closure_drops));
+    }
+    // everything is quiet: a caller asleep in sync on a queue that it could claim will not be woken by anybody
+    let infos = kernel::task_infos();
+    for r in world.ops.iter() {
+        if r.kind != Kind::Sync || r.outcome != CallOutcome::InCall || r.start.is_some() {
+            continue;
+        }
+        let (Some(o), Some(t)) = (r.obj, r.thread) else { continue };
+        if world.objs[o].panic_injected {
+            continue;
+        }
+        let on_condvar = infos.get(t).map_or(false, |i| matches!(i.state, TState::Blocked(rt::kernel::Wait::Condvar(_))));
+        let Some(Some((st, _, _))) = snap.queues.get(o).copied() else { continue };
+        let event_fired = world.ops.iter().any(|x| {
+            x.obj == Some(o) && x.start.is_some() && x.fin.is_none() && x.kind != Kind::FutureSync && x.waiting_gate.map_or(false, |g| world.gates[g].open || x.waiting_gate_alt.map_or(false, |g2| world.gates[g2].open))
+        });
+        if on_condvar && (st == 0 || st == 1 || (st == 5 && event_fired)) && crate::oracle::sync_is_owed_progress(world, r) {
+            snap.asleep_syncs.push((r.id, o, st));
+        }
     }
     snap
 }
